@@ -200,8 +200,11 @@ def main(argv):
     if new_failed or undecided:
         # attach a concrete input from the real code if we can (never the deciding step)
         exploration = replay_search(prop, seed, 60000)
-    elif tier == 'thorough' and P.get('oracle'):
-        exploration = replay_search(prop, seed, 240000, thorough=True)
+    elif P.get('oracle'):
+        # BOUNDED STAND-IN (labelled bounded, never counted as proved): differential check of the real crate against the property's
+        # executable oracle on small-scope + VERIF_SEED-ed random inputs; this is what covers the clauses the contracts do not decide
+        exploration = replay_search(prop, seed, 240000 if tier == 'thorough' else 20000, thorough=(tier == 'thorough'))
+        exploration['label'] = 'BOUNDED stand-in (not proof): cases tried = %s; generator and bounds in replay/src/%s.rs' % (exploration.get('tried'), P['oracle'].lower())
     rc = 0
     replay_path = None
     if new_failed or (exploration and exploration.get('status') == 'found'):
@@ -216,7 +219,7 @@ def main(argv):
             'kani_output': {k['harness']: k.get('output', '')[-6000:] for k in kani_results if k['status'] == 'failed'},
             'failing_input': exploration if exploration and exploration.get('status') == 'found' else None,
             'kani_counterexamples': [k.get('counterexample') for k in kani_results if k.get('counterexample')],
-            'note': ('obligation(s) failed in the deductive verifier' if new_failed else 'verification undecided, violation by replay on the real code'),
+            'note': ('obligation(s) failed in the deductive verifier' if new_failed else ('verification undecided, violation by replay on the real code' if undecided else 'all obligations discharged; violation found by the BOUNDED stand-in (differential check of the real code against the property oracle) in a clause the contracts do not decide')),
             'repo': REPO,
         }
         h = hashlib.sha1(json.dumps(body, sort_keys=True).encode()).hexdigest()[:10]
@@ -301,7 +304,7 @@ def evidence(prop, tier, seed, results, kani_results, failed, undecided, known_h
         'exit_code': rc,
     }
     if exploration:
-        cov['replay_exploration_NOT_PROOF'] = exploration
+        cov['bounded_standin_NOT_PROOF'] = exploration
     if thorough_info:
         cov['thorough'] = thorough_info
     return {
